@@ -231,6 +231,9 @@ fn node_scenario(ctx: &Ctx, idx: u64) -> Report {
             report.evaluations += 1;
             // API calls racing the deliveries (other threads of the application)
             let hammer = crate::world::api_hammer(&bed.net, &bed.dht, bed.addr, seed ^ run as u64, 0.05, 400);
+            // the node's own contacts are hostile too: their (well-formed) answers to its searches,
+            // refresh and bootstrap queries carry adversarial node lists
+            bed.world.lock().unwrap().hostile_lists = *[0.0, 0.3, 1.0].choose(&mut rng).unwrap();
             let world_addrs: Vec<std::net::SocketAddr> = bed.world.lock().unwrap().nodes.iter().map(|n| n.addr).collect();
             for batch in 0..batches {
                 // a search may be running while the garbage arrives
@@ -335,7 +338,7 @@ pub fn check(tier: Tier) -> Check {
                plus systematic sweeps (every truncation offset, every class at every node position, every \
                magnitude) for some messages. Each input is decoded in a supervised worker process on a \
                2 MiB stack under a counting allocator and panic hook. Stream node: serving nodes (tables \
-               filled from worlds of 0/3/30 nodes, on a network that duplicates 0/20/50 % of all datagrams, half of the copies back to back, with bursts of API calls issued in the instant of a delivery) receive batches of 5..60 such datagrams from fresh and \
+               filled from worlds of 0/3/30 nodes, on a network that duplicates 0/20/50 % of all datagrams, half of the copies back to back, with bursts of API calls issued in the instant of a delivery, the world answering the node's own queries with adversarial node lists in 0/30/100 % of its replies: one id under several addresses, the ids farthest from / equal to the target, all-zero and all-one ids) receive batches of 5..60 such datagrams from fresh and \
                spoofed contact addresses of both families, interleaved with valid queries and running \
                searches; after every batch a ping must be answered exactly once, get_state / load_contacts / \
                local_addr must complete and started searches must end. distinct_nontrivial = distinct \
